@@ -207,4 +207,95 @@ theorem addExit_blk : ∀ fuel g d c, BlkStep (addExit fuel g d c) := by
         exact ((b1 _ _ (by simp)).trans h2).trans h3
       · exact (noopRouterExit_frame _ d c).blk s
 
+/-! `add_exit` creates no group -/
+
+def GSz {α} (m : M α) : Prop := ∀ s, wp m s (fun _ s' => s'.groups.size = s.groups.size)
+
+theorem BFrame.gsz {α} {m : M α} (h : BFrame m) : GSz m := by
+  intro s
+  refine wp_mono (h s) ?_
+  intro _ s' ⟨h1, _, _⟩
+  rw [h1]
+
+theorem GSz.forM {β} (l : List β) (f : β → M PUnit) (hf : ∀ x ∈ l, GSz (f x)) : GSz (l.forM f) := by
+  intro s
+  exact wp_forM (fun s' => s'.groups.size = s.groups.size) l f (by
+    intro x hx s1 h1
+    refine wp_mono (hf x hx s1) ?_
+    intro _ s2 h2
+    exact h2.trans h1) s rfl
+
+theorem routerBehind_gsz (g : Nat) (nodes : List Nat) (rowType : Str) (i : Nat) (n : NodeM)
+    (operandV : Str) (waitT : Option Nat) : GSz (routerBehind g nodes rowType i n operandV waitT) := by
+  intro s
+  unfold routerBehind attachRowNode
+  wp_simp [wp_fresh', wp_newRouterNode, wp_addNode, wp_setGrp, wp_setNode]
+  refine ⟨fun _ => trivial, fun _ => ?_⟩
+  refine wp_mono (newSwitch_spec _ _ _ _) ?_
+  intro sw s1 ⟨k, hb, _⟩
+  subst hb
+  simp
+
+theorem rowExitCond_gsz (g : Nat) (nodes : List Nat) (rowType : Str) (i : Nat) (n : NodeM) (d : Dest)
+    (c : Cond) : GSz (rowExitCond g nodes rowType i n d c) := by
+  intro s
+  unfold rowExitCond
+  wp_simp
+  constructor
+  · intro _
+    refine wp_mono (routerBehind_gsz _ _ _ _ _ _ _ s) ?_
+    intro jn s1 h1
+    refine wp_mono ((nodeAddChoice_frame _ _ _ _ _ _ _).gsz s1) ?_
+    intro _ s2 h2
+    exact h2.trans h1
+  · intro _
+    exact (nodeAddChoice_frame _ _ _ _ _ _ _).gsz s
+
+theorem rowAddExit_gsz (g : Nat) (nodes : List Nat) (rowType : Str) (d : Dest) (c : Cond) :
+    GSz (rowAddExit g nodes rowType d c) := by
+  intro s
+  unfold rowAddExit
+  split
+  · wp_simp
+  · rename_i i hi
+    wp_simp [wp_getNode]
+    intro n hn
+    exact ⟨fun _ => (rowExitBlank_frame i n d).gsz s, fun _ =>
+      ⟨fun _ => (rowExitEnter_frame i c d).gsz s, fun _ =>
+      ⟨fun _ => (rowExitHook_frame i c d).gsz s, fun _ =>
+      ⟨fun _ => (rowExitNoResp_frame i n d).gsz s, fun _ =>
+        rowExitCond_gsz g nodes rowType i n d c s⟩⟩⟩⟩
+
+theorem addExit_gsz : ∀ fuel g d c, GSz (addExit fuel g d c) := by
+  intro fuel
+  induction fuel with
+  | zero => intro g d c s; unfold addExit; wp_simp
+  | succ fuel ih =>
+    intro g d c s
+    unfold addExit
+    wp_simp [wp_getGrp]
+    intro grp hgrp
+    split
+    · exact rowAddExit_gsz g _ _ d c s
+    · wp_simp
+      refine ⟨fun _ => ?_, fun _ => trivial⟩
+      refine wp_ro (ro_hasLoose _ _) s _ ?_
+      intro bb
+      exact ⟨fun _ => (BFrame.forM _ _ (fun x _ => connectIfLoose_frame _ d x)).gsz s, fun _ => trivial⟩
+    · split
+      · wp_simp
+        refine ⟨fun _ => GSz.forM _ _ (fun x _ => ih x.1 d x.2) s,
+          fun _ => ⟨fun _ => trivial, fun _ => ?_⟩⟩
+        unfold attachNoopRouter
+        wp_simp [wp_fresh', wp_newRouterNode, wp_addNode, wp_setGrp]
+        refine wp_mono (newSwitch_spec _ _ _ _) ?_
+        intro sw s1 ⟨k, hb, _⟩
+        subst hb
+        refine wp_mono (GSz.forM _ _ (fun x _ => ih x.1 (.node (tid s.next)) x.2) _) ?_
+        intro _ s2 h2
+        refine wp_mono ((noopRouterExit_frame _ d c).gsz s2) ?_
+        intro _ s3 h3
+        rw [h3, h2]; simp
+      · exact (noopRouterExit_frame _ d c).gsz s
+
 end Rpft.Compile
